@@ -498,8 +498,10 @@ def main(prop_name, tier="quick", seed=0, replay=None, ncases=None, jobs=None):
                 violations.append({"case": c, "violations": v, "index": i})
                 break
 
-    if errors and len(errors) > max(3, n_eval // 20):
-        infra_error = "too many harness errors (%d of %d): %s" % (len(errors), n_eval, errors[0][:600])
+    if errors:
+        # a case the harness itself could not execute is never passed over in silence: either the library behaves in a way
+        # the harness did not anticipate (which deserves a look) or the harness is wrong (which has to be repaired)
+        infra_error = "harness errors (%d of %d cases): %s" % (len(errors), n_eval, errors[0][:600])
 
     # ---- 6. verdict
     verdict_lines = []
